@@ -44,6 +44,7 @@ Next == /\ ~done /\ done' = TRUE
                      txt |-> ListOfType(L, ExtTxt, TRUE), txtLoose |-> ListOfType(L, ExtTxt, FALSE), map |-> ListOfType(L, ExtMap, TRUE)]
                  rev == [i \in 1..Len(vols) |-> vols[Len(vols) + 1 - i]]
              IN Emit(<<pl, clm, looseC>>, << [op |-> "resmgr", loose |-> loose, vols |-> vols, clms |-> clms, queries |-> Queries, patterns |-> Patterns, types |-> TypeQueries,
+                                              badRoots |-> << <<110,111,112,101>> >> \o (IF loose # <<>> THEN << loose[1].name >> ELSE <<>>),     \* "nope" and a regular file are no resource directories: construction refused
                                               answers |-> << Answers(vols \o clms), Answers(rev \o clms) >>] >>)
 Spec == Init /\ [][Next]_done
 ====
